@@ -212,7 +212,13 @@ func (s *Sched) Step(t *Thread) bool {
 		}
 	}
 	s.mu.Unlock()
-	t.resume <- struct{}{}
+	select {
+	case t.resume <- struct{}{}:
+	case <-time.After(s.Watchdog + time.Second):
+		// the goroutine is not waiting at its yield point (it ran past it or is gone): never block the harness
+		s.Stuck = fmt.Sprintf("watchdog: thread %d (%s) was resumed at %s but is not parked there", t.ID, t.Name, t.Site)
+		return false
+	}
 	return s.waitIdle()
 }
 
